@@ -18,7 +18,7 @@ ASSUMPTIONS = ['no schedule dimension: the dispatch order is fixed by the histor
 PROBES = []
 
 PLAN = {
-  'quick': {'strata': {'general': 4000, 'deep-init': 2500, 'very-deep': 2500}, 'wall_s': 90, 'chunk': 100, 'min_conclusive': 1000},
+  'quick': {'strata': {'general': 4000, 'deep-init': 2500, 'very-deep': 2500}, 'wall_s': 300, 'chunk': 100, 'min_conclusive': 1000},
   'thorough': {'strata': {'general': 100000, 'deep-init': 70000, 'very-deep': 70000}, 'wall_s': 900, 'chunk': 250, 'min_conclusive': 10000},
 }
 
